@@ -873,6 +873,83 @@ def large_cases(rng):
     return [with_pres(rng, c) for c in out]
 
 
+def boundary_cases(rng):
+    """A fixed handful per solver: boundary seeds (0, 1, 2**32, -1) under the run-twice clause, and every optional
+    numeric parameter of the bounded solvers far outside its default scale under the in-bounds clause, on
+    objectives whose better values lie towards / beyond the walls of the box."""
+    out = []
+    for solver in ("anneal", "tabu", "lns", "alns", "evolve", "de", "pso", "bayes"):
+        for seed in (0, 1, 2 ** 32, -1):
+            c = gen_case(rng, solver)
+            c["seed"] = seed
+            c["stop"] = 0
+            if solver in DISCRETE:
+                c["obj"] = {"kind": "hash", "salt": rng.randrange(10 ** 6), "scale": 1, "R": 101}
+                c["cb"].update(L=4, K=6)
+                c["start"] = [rng.randrange(6) for _ in range(4)] if solver != "evolve" else \
+                    [[rng.randrange(6) for _ in range(4)] for _ in range(6)]
+                c["opts"]["max_iter"] = 40 if solver != "evolve" else 8
+                if solver == "anneal":
+                    c["opts"].update(temperature=20.0, cooling=0.999)
+                    c["opts"].pop("min_temp", None)
+                if solver in ("lns", "alns"):
+                    c["opts"].update(accept="simulated_annealing", start_temp=20.0, cooling_rate=0.999, max_no_improve=100)
+                if solver == "tabu":
+                    c["opts"].update(max_no_improve=100)
+                    c["cb"].update(dead=0, dens=4)
+                if solver == "evolve":
+                    c["opts"].update(mutation_rate=0.5, elite_size=1)
+            else:
+                c["opts"]["max_iter"] = max(6, c["opts"].get("max_iter", 6))
+            c["boundary"] = f"seed={seed}"
+            out.append(c)
+
+    def box_case(solver, opts):
+        n = rng.randint(1, 3)
+        bs = gen_bounds(rng, n)
+        j = rng.randrange(n)
+        bs[j] = [bs[j][0], bs[j][0] + 0.5]                      # one narrow dimension
+        centre = [(lo + hi) / 2 for lo, hi in bs]
+        far = rng.random() < 0.7
+        c = {"solver": solver, "seed": rng.randrange(10 ** 6), "stop": 0, "bounds": bs,
+             # far: the further from the centre the better (walls and beyond attract); else a random grid
+             "obj": ({"kind": "steps", "c": centre, "k": 4, "scale": 1} if far else
+                     {"kind": "hashgrid", "c": centre, "k": 1, "scale": 1, "salt": rng.randrange(10 ** 6), "g": 2, "R": 50}),
+             "minimize": (not far) if far else rng.random() < 0.5, "opts": opts}
+        c["boundary"] = solver + ":" + ",".join(f"{k}={v}" for k, v in sorted(opts.items()) if k not in ("max_iter",))
+        return c, max(hi - lo for lo, hi in bs)
+
+    for mult in (3, 10, 1e-9, 0.0, 1000):
+        c, w = box_case("pso", {"n_particles": 6, "max_iter": 15})
+        c["opts"]["v_max"] = mult * w if mult >= 1 else mult
+        c["boundary"] = f"pso:v_max={mult}x"
+        out.append(c)
+    for extra in ({"inertia": 0.0}, {"inertia": 1.5, "v_max": 50.0}, {"cognitive": 0.0, "social": 6.0, "v_max": 20.0},
+                  {"cognitive": 6.0, "social": 0.0, "v_max": 20.0}, {"inertia": 0.9, "inertia_decay": 0.0, "v_max": 8.0},
+                  {"inertia": 1.0, "cognitive": 4.0, "social": 4.0, "v_max": 1e6}):
+        c, _ = box_case("pso", {"n_particles": 5, "max_iter": 15, **extra})
+        out.append(c)
+    for extra in ({"mutation": 0.0}, {"mutation": 3.0}, {"mutation": 25.0, "crossover": 1.0}, {"crossover": 0.0},
+                  {"mutation": 1e-9, "strategy": "best/1"}, {"mutation": 100.0, "strategy": "best/1", "population_size": 2}):
+        c, _ = box_case("de", {"population_size": 5, "max_iter": 12, "tol": 0.0, **extra})
+        out.append(c)
+    for extra in ({"kappa": 0.0, "acquisition": "ucb"}, {"kappa": 1000.0, "acquisition": "ucb"}, {"acq_restarts": 1}):
+        c, _ = box_case("bayes", {"n_initial": 3, "max_iter": 9, **extra})
+        out.append(c)
+    for step in (1e-9, 100.0, 0.0):
+        c = gen_case(rng, "nm")
+        c["opts"]["initial_step"] = step
+        c["boundary"] = f"nm:initial_step={step}"
+        out.append(c)
+    for t in (1e-6, 1e9):
+        c = gen_case(rng, "anneal")
+        c["opts"]["temperature"] = t
+        c["opts"].pop("min_temp", None)
+        c["boundary"] = f"anneal:temperature={t}"
+        out.append(c)
+    return out
+
+
 def edge_cases(rng):
     """Inputs at the edge of the quantified domain: zero iteration budget, no tabu memory, DE strategies that
     need the small-population fallback, degenerate bounds."""
@@ -1005,6 +1082,8 @@ def judge(ctx, case, out, reply, alt=None):
         ctx.count(f"history:pos{case['hist']['pos']}:{case['hist'].get('how', 'base')}")
     if case.get("large"):
         ctx.count("large:" + s)
+    if case.get("boundary"):
+        ctx.count("boundary:" + case["boundary"])
     ctx.count(f"{s}:obj:{case['obj']['kind']}")
     ctx.count("minimize" if case["minimize"] else "maximize")
     if case.get("stop"):
@@ -1222,6 +1301,8 @@ def run(ctx, budget):
     groups = [[c["case"]] for c in load_corpus("C19")]
     groups += [[c] for c in edge_cases(ctx.rng)]
     groups += [[c] for c in large_cases(ctx.rng)]
+    for _ in range(2 if budget == 1 else 8):
+        groups += [[with_pres(ctx.rng, c)] for c in boundary_cases(ctx.rng)]
     gid = 0
     for s, k in PER_SOLVER.items():
         n, made = k * budget, 0
